@@ -208,6 +208,29 @@ class Facts:
             local_types = {a['path'] for a in json.loads(txt)['adts']}
             txt = re.sub(r"(?<![\w:])[\w:]+::<impl ((?:[^<>]|<[^<>]*>)+?) for ((?:[^<>]|<[^<>]*>)+?)>::",
                          lambda m: ('<%s as %s>::' % (m.group(2), m.group(1))) if m.group(2).split('<', 1)[0] in local_types else m.group(0), txt)
+        # a crate type moved to another module (re-exported from its old path) is the same type: spell it as at the baseline when the
+        # name identifies it there uniquely (`generators::extension_degree::ExtensionDegree` -> `generators::pedersen_gens::ExtensionDegree`)
+        try:
+            from . import inline as _inl
+            bl = _inl.load_baseline()
+            if bl and bl.get('adts'):
+                cur = [a['path'] for a in json.loads(txt)['adts']]
+                base_by_name = {}
+                for bp in bl['adts']:
+                    base_by_name.setdefault(bp.split('::')[-1], []).append(bp)
+                cur_by_name = {}
+                for cp in cur:
+                    cur_by_name.setdefault(cp.split('::')[-1], []).append(cp)
+                for cp in cur:
+                    nm = cp.split('::')[-1]
+                    if cp in bl['adts'] or cp.startswith('<') or len(base_by_name.get(nm, [])) != 1 or len(cur_by_name.get(nm, [])) != 1:
+                        continue
+                    bp = base_by_name[nm][0]
+                    if bp in cur:
+                        continue
+                    txt = re.sub(r'(?<![\w:])%s(?![\w])' % re.escape(cp), bp.replace('\\', '\\\\'), txt)
+        except Exception:
+            pass
         self.j = json.loads(txt)
         self.field_renames = field_renames(self.j['adts'])
         self.fields_renamed = apply_field_renames(self.j, self.field_renames)
